@@ -268,6 +268,10 @@ def cases(tier):
     docs = ["tricky", "baseline30", "baseline31"] if tier == "thorough" else ["tricky", "baseline31"]
     for d in docs:
         yield {"labels": ["loaders", f"doc={d}"], "payload": {"mode": "loaders", "doc": d}}
+    # YAML anchors / aliases: one list or mapping object of the loaded document used by several schemas, against the same document spelled out
+    for shared in ALIAS_SHARED:
+        for first in ("nullable-first", "nullable-last"):
+            yield {"labels": ["loaders", "doc=aliases", f"shared={shared}", first], "payload": {"mode": "aliases", "shared": shared, "first": first}}
     # the output encoding is not the input encoding: a document with non-ASCII text, written under other --file-encoding values
     for enc in ("cp1252", "latin-1", "utf-16", "utf-8-sig"):
         yield {"labels": ["loaders", "doc=latin", f"file-encoding={enc}"], "payload": {"mode": "loaders", "doc": "latin", "encoding": enc}}
@@ -304,6 +308,66 @@ def _yaml_dump(doc):
     buf = io.StringIO()
     y.dump(doc, buf)
     return buf.getvalue().encode("utf-8")
+
+
+ALIAS_SHARED = ["oneOf-list", "anyOf-list", "allOf-list", "enum-list", "properties-map", "member-schema", "whole-schema", "items-schema"]
+
+
+def _aliases(p):
+    """A 3.0 document in which two schemas share ONE Python object (what a YAML alias loads as); one user says nullable: true, the other
+    does not.  Loaded from YAML with anchors, from the spelled-out YAML / JSON and from the aliased / copied dict in process: same client."""
+    ref = lambda n: {"$ref": R + n}  # noqa: E731
+    comps = {"Cat": {"type": "object", "properties": {"c": {"type": "string"}}}, "Dog": {"type": "object", "properties": {"d": {"type": "integer"}}}}
+    sh = p["shared"]
+    if sh in ("oneOf-list", "anyOf-list"):
+        members = [ref("Cat"), ref("Dog")]
+        a, b = {sh.split("-")[0]: members, "nullable": True}, {sh.split("-")[0]: members}
+    elif sh == "allOf-list":
+        members = [ref("Cat")]
+        a, b = {"allOf": members, "nullable": True}, {"allOf": members}
+    elif sh == "enum-list":
+        values = ["x", "y"]
+        a, b = {"type": "string", "enum": values, "nullable": True}, {"type": "string", "enum": values}
+    elif sh == "properties-map":
+        props = {"k": {"type": "string"}}
+        a, b = {"type": "object", "properties": props, "nullable": True}, {"type": "object", "properties": props}
+    elif sh == "member-schema":
+        member = {"type": "string", "format": "date"}
+        a, b = {"oneOf": [member, {"type": "integer"}], "nullable": True}, {"oneOf": [member, {"type": "integer"}]}
+    elif sh == "items-schema":
+        item = {"oneOf": [ref("Cat"), ref("Dog")], "nullable": True}
+        a, b = {"type": "array", "items": item}, {"type": "array", "items": item, "nullable": True}
+    else:
+        whole = {"oneOf": [ref("Cat"), ref("Dog")], "nullable": True}
+        a, b = whole, whole
+    pair = [("pet", a), ("other", b)] if p["first"] == "nullable-first" else [("other", b), ("pet", a)]
+    comps["Holder"] = {"type": "object", "properties": dict(pair)}
+    comps.update({"Top" + k.title(): v for k, v in pair})
+    doc = gen.base_doc(comps, version="3.0.3", paths={"/h": {"get": {"operationId": "getH", "responses": {"200": {"description": "d", "content": {"application/json": {"schema": ref("Holder")}}}}}}})
+    ybytes = _yaml_dump(doc)
+    if b"&id" not in ybytes:
+        return {"harness_error": "the YAML dump carries no anchor", "outcome": "HARNESS"}
+    spelled = json.loads(json.dumps(doc))
+    d = gen.fresh_dir("src")
+    os.makedirs(d)
+    variants = {}
+    try:
+        files = {"spelled.json": json.dumps(spelled).encode(), "spelled.yaml": _yaml_dump(spelled), "aliased.yaml": ybytes}
+        for fn, b_ in files.items():
+            (Path(d) / fn).write_bytes(b_)
+            variants[f"file:{fn}"] = gen.generate_from_source(Path(d) / fn)
+        url = gen.serve(f"/aliases/{sh}/{p['first']}/openapi", ybytes, "application/yaml")
+        variants["url:aliased-yaml"] = gen.generate_from_source(url)
+        variants["in-process-copied-dict"] = gen.generate(spelled)
+        variants["in-process-aliased-dict"] = gen.generate(doc)
+        variants["in-process-aliased-dict-again"] = gen.generate(doc)      # the same loaded object validated a second time
+    finally:
+        import shutil
+        shutil.rmtree(d, ignore_errors=True)
+    viol, early = _compare(variants, f"aliases/{sh}", "loader")
+    if early:
+        return early
+    return {"violations": viol, "outcome": "ok" if not viol else "viol:aliases", "nontrivial": True, "steps": len(variants)}
 
 
 def _loaders(p):
@@ -352,6 +416,8 @@ def run_case(p):
     mode = p["mode"]
     if mode == "loaders":
         return _loaders(p)
+    if mode == "aliases":
+        return _aliases(p)
     variants = {}
     opts = {}
     if mode == "nullable":
